@@ -11,6 +11,7 @@ action `wEnd`; it counts as a transition that is enabled while a worker is insid
                       enabled transition in which a Load is blocked for ever
 -/
 import Got.Lemmas.CacheLive
+import Got.Lemmas.CacheQuiescent
 open Got.Model.CacheCore Got.Model.Cache Got.Spec.Cache Got.Lemmas.Cache
 
 /-- C06 measure: for every finite set of clients `cs` and workers `ws` that contains the acting agent, every
@@ -33,6 +34,83 @@ theorem C06_bounded_work_delay (cfg : Cfg) (cs ws : List Nat) (s : State) (d : N
 -- non-vacuity: a concrete decreasing step (the Load critical section from the initial state after an invocation)
 example : mu fixedCfg [0] [0] (run fixedCfg init [.invLoad 0 0 0, .cl 0]) <
           mu fixedCfg [0] [0] (run fixedCfg init [.invLoad 0 0 0]) := by decide
+
+/-- C06 (deadlock freedom of the fixed code): for all P ≥ 1, J ≥ 1, S, clients, keys – in every reachable state in
+    which no client / worker / loader transition is enabled, every issued call has returned and every future is
+    resolved.  (While a loader runs, its return `wEnd` is an enabled transition: "provided every loader returns".) -/
+theorem C06_quiescent_done (cfg : Cfg) (s : State) (hfix : cfg.old = false) (hP : 1 ≤ cfg.P) (hJ : 1 ≤ cfg.J)
+    (hr : Reachable cfg s) (hq : ¬ CanProgress cfg s) : AllReturned s ∧ AllResolved s :=
+  quiescent_done cfg s hfix hP hJ (inv_reachable cfg s hr) hq
+
+-- non-vacuity: the initial state is reachable and quiescent; and a complete Load (critical section, unlock, send,
+-- return; worker: receive, loader start / end, the three setValue steps) ends with the call returned, the future resolved
+example : Reachable fixedCfg init ∧ ¬ CanProgress fixedCfg init := by
+  refine ⟨⟨[], rfl⟩, ?_⟩
+  rintro ⟨a, ha, hs⟩
+  cases a <;> simp [Act.isProgress] at ha <;> simp [step?, clStep, wkStep, init] at hs
+example :
+    let s := run fixedCfg init [.invLoad 0 0 0, .cl 0, .cl 0, .cl 0, .cl 0, .wTake 0, .wStart 0, .wEnd 0 ⟨some 7, none⟩,
+                                .wk 0, .wk 0, .wk 0]
+    s.cpc 0 = .done (.fut 0) ∧ (s.fut 0).done = true ∧ (s.fut 0).res = some ⟨some 7, none⟩ ∧ s.wpc 0 = .idle ∧
+    s.chan = [] := by decide
+
+/-- invariant I1 (fixed code): a lock holder always has an enabled step – critical sections contain no blocking operation -/
+theorem C06_lock_holder_enabled (cfg : Cfg) (s : State) (hfix : cfg.old = false) (hr : Reachable cfg s)
+    (sh : Nat) (c : Cid) (hl : s.lock sh = some c) : (step? cfg s (.cl c)).isSome = true := by
+  have h := inv_reachable cfg s hr
+  rcases h.l_holder sh c hl with ⟨send, plan, e⟩ | ⟨j, plan, e⟩
+  · cases send <;> simp [step?, clStep, e]
+  · have := h.l_fixed hfix c j plan (some sh) e; cases this
+
+/-- invariant I2: every unresolved load-future has its job in exactly one of {its creator (about to send), the job
+    channel, a worker}; `jobAt` is the ghost location, the three conjuncts say that the job really is there and
+    (place ⇒ location, Inv.f_*) nowhere else -/
+theorem C06_job_somewhere (cfg : Cfg) (s : State) (hr : Reachable cfg s) (f : FutId) (hf : f < s.nfut)
+    (hd : (s.fut f).done = false) :
+    (∃ c j, s.jobAt f = .creator c ∧ jobOf (s.cpc c) = some j ∧ j.fut = f) ∨
+    (∃ j, s.jobAt f = .chan ∧ j ∈ s.chan ∧ j.fut = f) ∨
+    (∃ w j, s.jobAt f = .worker w ∧ wjob (s.wpc w) = some j ∧ j.fut = f) := by
+  have h := inv_reachable cfg s hr
+  have hst := h.stage f hf
+  unfold StageOK at hst
+  cases hl : s.jobAt f with
+  | nowhere => rw [hl] at hst; exact absurd hst id
+  | creator c =>
+    obtain ⟨j, hj, e⟩ := h.j_creator f c hf hl
+    exact Or.inl ⟨c, j, rfl, hj, e⟩
+  | chan =>
+    obtain ⟨j, hj, e⟩ := h.j_chan f hf hl
+    exact Or.inr (Or.inl ⟨j, rfl, hj, e⟩)
+  | worker w =>
+    obtain ⟨j, hj, e⟩ := h.j_worker f w hf hl
+    exact Or.inr (Or.inr ⟨w, j, rfl, hj, e⟩)
+  | finished => rw [hl] at hst; simp only at hst; rw [hst.1] at hd; cases hd
+
+/-- … exactly one: two places holding a job for the same future coincide (channel entries are pairwise distinct) -/
+theorem C06_job_unique (cfg : Cfg) (s : State) (hr : Reachable cfg s) :
+    (∀ c c' j j', jobOf (s.cpc c) = some j → jobOf (s.cpc c') = some j' → j.fut = j'.fut → c = c') ∧
+    (∀ w w' j j', wjob (s.wpc w) = some j → wjob (s.wpc w') = some j' → j.fut = j'.fut → w = w') ∧
+    (s.chan.map (·.fut)).Nodup ∧
+    (∀ c j j', jobOf (s.cpc c) = some j → j' ∈ s.chan → j.fut ≠ j'.fut) ∧
+    (∀ c w j j', jobOf (s.cpc c) = some j → wjob (s.wpc w) = some j' → j.fut ≠ j'.fut) ∧
+    (∀ w j j', wjob (s.wpc w) = some j → j' ∈ s.chan → j.fut ≠ j'.fut) := by
+  have h := inv_reachable cfg s hr
+  refine ⟨?_, ?_, h.f_nodup, ?_, ?_, ?_⟩
+  · intro c c' j j' h1 h2 e
+    have l1 := h.f_creator c j h1; have l2 := h.f_creator c' j' h2
+    rw [e, l2] at l1; exact (Loc.creator.inj l1).symm
+  · intro w w' j j' h1 h2 e
+    have l1 := h.f_worker w j h1; have l2 := h.f_worker w' j' h2
+    rw [e, l2] at l1; exact (Loc.worker.inj l1).symm
+  · intro c j j' h1 h2 e
+    have l1 := h.f_creator c j h1; have l2 := h.f_chan j' h2
+    rw [e, l2] at l1; cases l1
+  · intro c w j j' h1 h2 e
+    have l1 := h.f_creator c j h1; have l2 := h.f_worker w j' h2
+    rw [e, l2] at l1; cases l1
+  · intro w j j' h1 h2 e
+    have l1 := h.f_worker w j h1; have l2 := h.f_chan j' h2
+    rw [e, l2] at l1; cases l1
 
 /-- the deadlock of the code before the fix, `decide`d on the model's old variant (`cfg.old = true`: sendJob inside
     the critical section): P = 1, J = 1, two Loads over keys of distinct shards and a pending tick. -/
